@@ -320,12 +320,16 @@ def tasks(tier):
          dict(rows=2, cols=2, chars=['a'], depth=None),
          dict(rows=2, cols=3, chars=['a', b'b'], depth=3 if q else 4),
          dict(rows=3, cols=2, chars=['a', b'b'], depth=3 if q else 4),
-         dict(rows=3, cols=4, chars=['a', b'b'], depth=2 if q else 3)]
+         dict(rows=3, cols=4, chars=['a', b'b'], depth=2 if q else 4)]
     if not q:
-        t += [dict(rows=4, cols=5, chars=['a', b'b'], depth=2),
-              dict(rows=3, cols=3, chars=['a', 'b'], depth=3),
-              dict(rows=2, cols=3, chars=['a'], depth=4),
-              dict(rows=3, cols=1, chars=['a'], depth=None)]
+        t += [dict(rows=4, cols=5, chars=['a', b'b'], depth=3),
+              dict(rows=3, cols=3, chars=['a', 'b'], depth=4),
+              dict(rows=2, cols=3, chars=['a'], depth=None),
+              dict(rows=3, cols=2, chars=['a'], depth=None),
+              dict(rows=3, cols=1, chars=['a'], depth=None),
+              dict(rows=1, cols=3, chars=['a', 'b'], depth=None),
+              dict(rows=4, cols=1, chars=['a'], depth=None),
+              dict(rows=2, cols=2, chars=['a', b'b'], depth=None)]
     return t
 
 
@@ -366,7 +370,7 @@ def run_task(task):
     depth = 0
     flags = collections.Counter()
     bad_acc = set()
-    cap = 300000
+    cap = 300000 if task.get('tier') == 'quick' else 3000000
     while frontier and (task['depth'] is None or depth < task['depth']):
         nxt = []
         for node in frontier:
